@@ -391,10 +391,17 @@ def listIdx (l : List String) (x : String) : Option Nat :=
     | y :: r => if y == x then some i else go r (i + 1)
   go l 0
 
+/-- `[m for m, name in enumerate(node_names) if name == node_name and node_pinnames[m] != ''][0]` if there is one, else
+    `node_names.index(node_name)`: a node name that occurs both at an undrawn position and at a drawn pin means the pin -/
+def drawnIdx (nodes pinnames : List String) (x : String) : Option Nat :=
+  match ((nodes.zip pinnames).zipIdx).find? (fun t => t.1.1 == x && t.1.2 != "") with
+  | some t => some t.2
+  | none => listIdx nodes x
+
 /-- Cpt.required_pins -/
 def requiredPins (e : Elt) (row : ClassRow) (allpins : List PinRow) (nodes : List String) : Except String (List PinRow) :=
   nodes.foldlM (fun acc n => do
-    let pinname ← match listIdx e.nodes n with
+    let pinname ← match drawnIdx e.nodes row.nodePinnames n with
       | some i => match row.nodePinnames[i]? with
                   | some p => pure p
                   | none => throw "pin-index"
